@@ -23,7 +23,7 @@ def plan(tier):
         qs.append(Q(P, decl, [], wit=(W_OK,) if decl in (5, 6) else (W_ERR,), extra=E))                      # not given, env unset
     qs += [Q(P, 5, ['--o=**'], env={0: '**'}, extra=E, wit=(W_OK,)), Q(P, 5, ['--m', '**'], env={1: '**'}, extra=E, wit=(W_OK, W_ERR)),
            Q(P, 5, ['-t'], env={2: '**'}, extra=E, wit=(W_OK,)), Q(P, 6, ['--o', '**'], env={0: '**'}, extra=E), Q(P, 6, ['--m=**'], env={1: '**'}, extra=E, wit=(W_OK,)),
-           Q(P, 6, ['--t'], env={2: '**'}, extra=E, wit=(W_OK,)), Q(P, 7, ['--o=*'], env={0: '**'}, extra=E, wit=(W_OK,)), Q(P, 8, ['--m=*'], env={0: '**'}, extra=E, wit=(W_OK,)),
+           Q(P, 6, ['--t'], env={2: '**'}, extra=E, wit=(W_OK,)), Q(P, 6, ['--no-t'], env={2: '***'}, extra=E, wit=(W_OK,)), Q(P, 7, ['--o=*'], env={0: '**'}, extra=E, wit=(W_OK,)), Q(P, 8, ['--m=*'], env={0: '**'}, extra=E, wit=(W_OK,)),
            Q(P, 11, ['--o=*', '**'], extra=E), Q(P, 11, ['**'], extra=E, wit=(W_ERR,)), Q(P, 5, [], env={0: '**', 1: '**', 2: '**'}, extra=E)]
     if th:
         qs += [Q(P, 5, [], env={0: '*****'}, extra=E, wit=(W_OK,)), Q(P, 5, [], env={1: '*****'}, extra=E, wit=(W_OK,), timeout=3000), Q(P, 8, [], env={0: '*****'}, extra=E, timeout=3000),
